@@ -887,6 +887,15 @@ def unique_tree(rng, depth=0):
     return go(depth)
 
 
+_PRUNE_MSL = [None]
+
+
+def _take_msl(xs):
+    """the first max_seq_len elements in iteration order (the reference for depth x max_seq_len)"""
+    xs = list(xs)
+    return xs if _PRUNE_MSL[0] is None else xs[:_PRUNE_MSL[0]]
+
+
 def pruned_src(v, d, k=0, empties=()):
     """reference rendering (layout-free source text) of `v` with depth=d, written from the property statement: an element nested
     inside k containers is printed in full if k < d, otherwise replaced by an ellipsis placeholder of its own type.
@@ -900,18 +909,18 @@ def pruned_src(v, d, k=0, empties=()):
     if t in (list, tuple, set, frozenset, dict) and len(v) == 0 and not (cut and t in empties):
         return {list: '[]', tuple: '()', set: 'set()', frozenset: 'frozenset()', dict: '{}'}[t]
     if t is list:
-        return '[...]' if cut else '[' + ', '.join(pruned_src(x, d, k + 1, empties) for x in v) + ']'
+        return '[...]' if cut else '[' + ', '.join(pruned_src(x, d, k + 1, empties) for x in _take_msl(v)) + ']'
     if t is tuple:
-        return '(...)' if cut else '(' + ', '.join(pruned_src(x, d, k + 1, empties) for x in v) + (',)' if len(v) == 1 else ')')
+        return '(...)' if cut else '(' + ', '.join(pruned_src(x, d, k + 1, empties) for x in _take_msl(v)) + (',)' if len(_take_msl(v)) == 1 else ')')
     if t is set:
-        return 'set(...)' if cut else '{' + ', '.join(pruned_src(x, d, k + 1, empties) for x in v) + '}'
+        return 'set(...)' if cut else '{' + ', '.join(pruned_src(x, d, k + 1, empties) for x in _take_msl(v)) + '}'
     if t is frozenset:
-        return 'frozenset(...)' if cut else 'frozenset([' + ', '.join(pruned_src(x, d, k + 1, empties) for x in v) + '])'
+        return 'frozenset(...)' if cut else 'frozenset([' + ', '.join(pruned_src(x, d, k + 1, empties) for x in _take_msl(v)) + '])'
     if t is dict:
         if cut:
             return '{...}'
         return '{' + ', '.join((repr(a) if isinstance(a, (str, bytes)) else pruned_src(a, d, k + 1, empties)) + ': ' + pruned_src(b, d, k + 1, empties)
-                               for a, b in v.items()) + '}'
+                               for a, b in _take_msl(list(v.items()))) + '}'
     if cut:
         return '%s(...)' % t.__name__
     return repr(v)
@@ -941,6 +950,46 @@ def depth_chunk(args):
                 g1 = drv.ask('(pformat %s %s)' % (sx, settings_sx(*st)))
                 if g1 != '(ok ' + p + ')':
                     mism.append({'value': repr(value)[:300], 'value_sx': sx[:2000], 'settings': st, 'impl': p[:1200], 'model': g1[:1200]})
+                    break
+        # depth x max_seq_len: containers longer than max_seq_len above, at and below the cut; the output must be (up to layout and
+        # comments) the value cut at `depth` with every shown container reduced to its first max_seq_len elements
+        if len(fails) < 3 and max_len(value) > 1:
+            import itertools
+            for msl in (1, 2):
+                for d in ds[:-1]:
+                    st = (4, widths[0], widths[0], d, msl, 0)
+                    p, text, kinds = impl_piece(value, st)
+                    n += 1
+                    g1 = drv.ask('(pformat %s %s)' % (sx, settings_sx(*st)))
+                    if g1 != '(ok ' + p + ')' and len(mism) < 3:
+                        mism.append({'value': repr(value)[:300], 'value_sx': sx[:2000], 'settings': st, 'impl': p[:1200], 'model': g1[:1200]})
+                    bad = None
+                    if text is None or text.startswith('(warn'):
+                        bad = 'raises or falls back to repr'
+                    else:
+                        try:
+                            got = ast_of(text)
+                        except SyntaxError:
+                            got = None
+                        ok = False
+                        _PRUNE_MSL[0] = msl
+                        try:
+                            kinds5 = (dict, list, tuple, set, frozenset)
+                            for r in range(6):
+                                for emp in itertools.combinations(kinds5, r):
+                                    if got == ast.dump(ast.parse('(' + pruned_src(value, d, 0, emp) + '\n)', mode='eval')):
+                                        ok = True
+                                        break
+                                if ok:
+                                    break
+                            if not ok:
+                                bad = 'output is not the value cut at depth %d and truncated to %d elements: expected (up to layout) %s' % (d, msl, pruned_src(value, d)[:300])
+                        finally:
+                            _PRUNE_MSL[0] = None
+                    if bad:
+                        fails.append({'kind': 'depth', 'why': bad, 'value': repr(value)[:300], 'settings': st, 'text': (text or '')[:500]})
+                        break
+                if fails:
                     break
         if len(fails) < 3:
             lv = leaves_with_level(value)
